@@ -30,7 +30,7 @@ SUB = "ksock"
 PID = "C17"
 PROP_INVS = ["BindOracle", "FreshPort", "DemuxOracle"]
 REAL_EPH = (49152, 65535)
-ADDR_ORDER = ["lo", "a1", "a2", "b1", "b2", "c1", "c2", "x"]
+ADDR_ORDER = ["lo", "a1", "a2", "b1", "b2", "c1", "c2", "x", "wild"]
 MAX_JUDGED = 4             # violations reported per configuration before judging stops
 MAX_FILL_BEHAVIOURS = 300  # behaviours replayed on the pre-filled real port range
 
@@ -39,7 +39,8 @@ def base(**kw):
     c = dict(Hosts={1, 2}, EphLo=49152, EphHi=49154, Fams={4}, Protos={"udp", "tcp"}, BindHosts={1},
              BindAddrs={"wild", "lo", "a1", "a2", "b1"}, BindPorts={5000, 0}, PeerAddrs=set(),
              ConnHosts=set(), ConnAddrs=set(), ConnPorts=set(), MaxSocks=3, MaxOps=4, NoWrap=False,
-             ProbeActs=False, FillFrom=0, SwAddrs={"lo", "a1", "a2", "b1", "x"}, SwPorts={5000, 49152, 49153})
+             ProbeActs=False, FillFrom=0, SwAddrs={"lo", "a1", "a2", "b1", "x", "wild"},
+             SwPorts={5000, 49152, 49153})
     c.update(kw)
     return c
 
@@ -88,7 +89,7 @@ def mc_configs(tier):
         # addresses, children bound to concrete addresses next to wildcard listeners
         ("mc_demux", "Spec",
          base(BindHosts={1, 2}, BindAddrs={"wild", "lo", "a1", "a2"}, BindPorts={5000},
-              PeerAddrs={"a1", "b1"}, ConnHosts={1, 2}, ConnAddrs={"lo", "a1", "a2", "x"},
+              PeerAddrs={"a1", "b1"}, ConnHosts={1, 2}, ConnAddrs={"lo", "a1", "a2", "x", "wild"},
               ConnPorts={5000}, MaxSocks=4, MaxOps=4 if q else 5, SwPorts={5000}),
          plain + ["CloseConnMC", "ConnectUdpMC", "ConnectMC"]),
         # the two IP families are disjoint name spaces
@@ -107,6 +108,15 @@ def mc_configs(tier):
     return cfgs
 
 
+# a listener is closed while a connection it accepted stays open: the child (bound to the concrete address it was
+# accepted on) is the only live socket left on the port - re-binds of that port (same address / wildcard / the other
+# own address) and port-0 binds (the listener sat on the first ephemeral port, the cursor still points at it) must
+# see it.  4 operations: bind, connect, close listener, bind.
+GEN_CHILD = ("gen_child", base(NoWrap=True, Protos={"tcp"}, BindAddrs={"wild", "a1", "a2"}, BindPorts={49152, 0},
+                               ConnHosts={2}, ConnAddrs={"a1"}, ConnPorts=set(), MaxSocks=4, MaxOps=4,
+                               SwAddrs={"a1", "a2"}, SwPorts={49152}))
+
+
 def gen_configs(tier):
     """Behaviour generation.  NoWrap: no allocation scans past EphHi, so the
     3-port model and the real 16 384-port range behave identically."""
@@ -117,12 +127,14 @@ def gen_configs(tier):
             ("gen_bind", base(NoWrap=True, MaxSocks=3, MaxOps=3, SwPorts={5000, 49152})),
             # binds, UDP connects, TCP connects (loopback, own, foreign, unknown), closes of connections
             ("gen_conn", base(NoWrap=True, BindHosts={1}, BindAddrs={"wild", "lo", "a1"}, BindPorts={5000},
-                              PeerAddrs={"a1", "b1"}, ConnHosts={1, 2}, ConnAddrs={"lo", "a1", "a2", "x"},
+                              PeerAddrs={"a1", "b1"}, ConnHosts={1, 2}, ConnAddrs={"lo", "a1", "a2", "x", "wild"},
                               ConnPorts={5000}, MaxSocks=4, MaxOps=3, SwPorts={5000})),
+            GEN_CHILD,
         ]
     cfgs = [
+        GEN_CHILD,
         ("gen_mix", base(NoWrap=True, BindAddrs={"wild", "lo", "a1", "a2", "b1"}, BindPorts={5000, 0},
-                         PeerAddrs={"a1", "b1"}, ConnHosts={1, 2}, ConnAddrs={"lo", "a1", "a2", "x"},
+                         PeerAddrs={"a1", "b1"}, ConnHosts={1, 2}, ConnAddrs={"lo", "a1", "a2", "x", "wild"},
                          ConnPorts={5000}, MaxSocks=4, MaxOps=3, SwPorts={5000, 49152, 49153})),
         ("gen_fam", base(NoWrap=True, Fams={4, 6}, BindAddrs={"wild", "a1"}, BindPorts={5000, 0},
                          PeerAddrs={"a1"}, ConnHosts={2}, ConnAddrs={"a1"}, ConnPorts={5000},
@@ -201,6 +213,13 @@ def validate_trace(path, n, tag, impl=True):
     return pr, ir
 
 
+def crashed_at(spath):
+    try:
+        return int(open(spath + ".progress").read().strip())
+    except (OSError, ValueError):
+        return None
+
+
 def rejected(r):
     return bool(r.violated or r.unmatched)
 
@@ -216,6 +235,10 @@ def trace_stats(path):
             elif k in ("bind", "connect"):
                 k += ":" + e["res"] + (":port0" if e.get("port") == 0 else "")
             st[k] = st.get(k, 0) + 1
+            if e["ev"] in ("probe_udp", "probe_syn", "connect") and e.get("da") == "wild":
+                st["probe_to_unspecified"] = st.get("probe_to_unspecified", 0) + 1
+            if e["ev"] == "bind" and e.get("after_listener_close"):
+                st["rebind_after_listener_close"] = st.get("rebind_after_listener_close", 0) + 1
     return st
 
 
@@ -291,7 +314,19 @@ def run_(pid, tier, seed, replay=None):
         with open(bpath, "w") as f:
             f.write("\n".join(behs) + "\n")
         spath = os.path.join(w, f"{name}.summary.json")
-        out = vlib.run_driver("ksock", ["replay", f"in={bpath}", f"out={spath}", f"traces={w}"] + replay_args(consts))
+        try:
+            out = vlib.run_driver("ksock", ["replay", f"in={bpath}", f"out={spath}", f"traces={w}"] + replay_args(consts))
+        except MachineryError:
+            # the driver process died (a panic of the code under test while another panic was unwinding
+            # aborts): the behaviour that was running is data - no admissible result of any call
+            k = crashed_at(spath)
+            if k is None:
+                raise
+            log(f"[{pid}] {name}: the code under test aborted the driver while behaviour #{k} was replayed")
+            ck.violation({"kind": "behaviour", "property": pid, "config": name, "consts": jsonable(consts),
+                          "behaviour": json.loads(behs[k]), "divergence": {"what": "abort", "line": k}})
+            ck.traces += k
+            continue
         s = json.load(open(spath))
         log(f"[{pid}] {name}: {generated} TLC behaviours ({r.wall:.0f}s), {out.strip()}")
         ck.traces += s["behaviours"]
@@ -347,7 +382,8 @@ def run_(pid, tier, seed, replay=None):
                 f"({ir.violated}); PropSpec accepted it (drift, no alarm)")
     ck.extra["random_trace_event_classes"] = stats_all
     # vacuity of the random direction: every outcome class must have been recorded
-    need = ["bind:Ok", "bind:Ok:port0", "bind:AddrInUse", "bind:AddrNotAvailable", "connect:Ok", "connect:Refused",
+    need = ["bind:Ok", "bind:Ok:port0", "bind:AddrInUse", "bind:AddrNotAvailable", "rebind_after_listener_close",
+            "probe_to_unspecified", "connect:Ok", "connect:Refused",
             "connect:NoReply", "probe_udp:observed", "probe_udp:nobody", "probe_syn:observed", "probe_syn:rst",
             "probe_syn:none", "data:observed", "close", "connect_udp"]
     missing = [k for k in need if stats_all.get(k, 0) == 0]
@@ -441,13 +477,21 @@ def do_replay(ck, path):
         bpath = os.path.join(w, "beh.ndjson")
         open(bpath, "w").write(json.dumps(rp["behaviour"]) + "\n")
         spath = os.path.join(w, "summary.json")
-        vlib.run_driver("ksock", ["replay", f"in={bpath}", f"out={spath}", f"traces={w}"] + replay_args(consts))
-        s = json.load(open(spath))
+        try:
+            vlib.run_driver("ksock", ["replay", f"in={bpath}", f"out={spath}", f"traces={w}"] + replay_args(consts))
+            s = json.load(open(spath))
+        except MachineryError:
+            if crashed_at(spath) is None:
+                raise
+            log(f"[{pid}] replay: the code under test aborted the driver")
+            ck.violation(dict(rp, divergence={"what": "abort"}))
+            s = {"divergences": [None]}
         ck.traces = ck.evaluations = 1
         if not s["divergences"]:
             log(f"[{pid}] replay: behaviour now matches the ImplSpec prediction")
         for d in s["divergences"]:
-            judge_divergence(ck, rp.get("config", "replay"), consts, d)
+            if d is not None:
+                judge_divergence(ck, rp.get("config", "replay"), consts, d)
     else:
         tpath = os.path.join(w, "trace.ndjson")
         vlib.run_driver("ksock", rp["args"] + [f"out={tpath}"])
